@@ -168,14 +168,22 @@ Definition write_now (o : options) (st : dstate) (d : deferred) : M dstate :=
   let! _ := (match d_perm_after d with Some mode => checked (OChmod (d_dest d) mode) | None => mret tt end) in
   mret st1.
 
-Fixpoint finalize_writes (o : options) (st : dstate) (ds : list deferred) : M dstate :=
+(* the one backup of a file is taken before the first deferred write to it, whichever of the writes to that file asks for it *)
+Definition with_backup_of (all : list deferred) (d : deferred) : deferred :=
+  mkDef (d_data d) (d_dest d) (d_newname d)
+        (d_backup d || existsb (fun x => str_eqb (d_dest x) (d_dest d) && d_backup x) all)
+        (d_chmod_first d) (d_perm_after d).
+
+Fixpoint finalize_writes_from (o : options) (all : list deferred) (st : dstate) (ds : list deferred) : M dstate :=
   match ds with
   | [] => mret st
   | d :: r =>
       (* the directory may have gone with the last file a later section removed from it *)
       let! _ := ensure_parent_directories (d_dest d) in
-      let! st' := write_now o st d in finalize_writes o st' r
+      let! st' := write_now o st (with_backup_of all d) in finalize_writes_from o all st' r
   end.
+
+Definition finalize_writes (o : options) (st : dstate) (ds : list deferred) : M dstate := finalize_writes_from o ds st ds.
 
 Fixpoint finalize_removals (ws : list deferred) (rs : list (list N)) : M unit :=
   match rs with
